@@ -269,8 +269,10 @@ class _ActionPrintConfig(Action):
                 raise argument_error(f'Invalid option "{invalid_flags[0]}" for {option_string}')
             for flag in [f for f in flags if f != ""]:
                 kwargs[valid_flags[flag]] = True
-        while hasattr(parser, "parent_parser") and parser in subcommand_parsers_in_progress.get():
-            kwargs["key"] = parser.subcommand if kwargs["key"] is None else parser.subcommand + "." + kwargs["key"]
+        in_progress = {id(subparser): name for subparser, name in subcommand_parsers_in_progress.get()}
+        while hasattr(parser, "parent_parser") and id(parser) in in_progress:
+            name = in_progress[id(parser)]  # the name given on the command line: the canonical one or an alias
+            kwargs["key"] = name if kwargs["key"] is None else name + "." + kwargs["key"]
             parser = parser.parent_parser
         parser.print_config = kwargs
 
@@ -686,7 +688,9 @@ class _ActionSubCommands(_SubParsersAction):
             subparser = self._name_parser_map[subcommand]
             subnamespace = namespace.get(subcommand).clone() if subcommand in namespace else None
             kwargs = dict(_skip_validation=True, **parse_kwargs.get())
-            token = subcommand_parsers_in_progress.set(subcommand_parsers_in_progress.get() + (subparser,))
+            token = subcommand_parsers_in_progress.set(
+                subcommand_parsers_in_progress.get() + ((subparser, subcommand),)
+            )
             try:
                 namespace[subcommand] = subparser.parse_args(arg_strings, namespace=subnamespace, **kwargs)
             finally:
